@@ -6,9 +6,9 @@
      - a lookup computes k = combinedUUID(op, lo, argument UUIDs...), reads its map under RLock;
          v != nil (a non-empty cached slice)  => stream v, return nil                        (hit)
          otherwise                            => forward to the inner graph in a goroutine, relay every element
-                                                 to the caller while appending it to a slice, wait, lock, store the
-                                                 slice under k (also when it is empty/nil and also when the inner
-                                                 lookup returned an error), unlock, return the inner error  (miss)
+                                                 to the caller while appending it to a slice, wait, and - when the
+                                                 inner lookup returned no error (fix F22) - lock, store the slice
+                                                 under k (also when it is empty/nil), unlock; return the inner error
      - Exist: its own map memE; hit = key present (also for a cached `false`); miss = forward, store only when err == nil.
    The model keeps exactly that: per-handle caches, keys, hit test, clear-then-forward, forward-stream-store.
    Everything about the wrapped store is a Section variable (inner_step), so this file depends on no other family. *)
@@ -71,16 +71,30 @@ Section MemoModel.
       | _ => None
       end.
 
-  (* what the memoizer stores after the forwarded lookup returned `a` *)
+  (* what the memoizer stores after the forwarded lookup returned `a`: only when err == nil (for the channel lookups
+     since fix F22; before it the collected slice was stored whatever the error was, see store_after_f22 below) *)
   Definition store_after (h : handle) (q : query) (a : answer) : handle :=
     if is_exist q then
       match a with
-      | ABool b None => store_exist h (key q) b          (* if err == nil *)
+      | ABool b None => store_exist h (key q) b
       | _ => h
       end
     else
       match a with
-      | AList l _ => store_list h (key q) l              (* stored whatever the error was *)
+      | AList l None => store_list h (key q) l
+      | _ => h
+      end.
+
+  (* the tree BEFORE fix F22 (kept only for the witness C19_truncated_cached_refuted) *)
+  Definition store_after_f22 (h : handle) (q : query) (a : answer) : handle :=
+    if is_exist q then
+      match a with
+      | ABool b None => store_exist h (key q) b
+      | _ => h
+      end
+    else
+      match a with
+      | AList l _ => store_list h (key q) l
       | _ => h
       end.
 
@@ -95,6 +109,26 @@ Section MemoModel.
         | None =>
             let '(s', a) := inner_step s (h_gid h) (Read q) in (s', store_after h q a, a)
         end
+    end.
+
+  Definition handle_step_f22 (s : istate) (h : handle) (r : req) : istate * handle * answer :=
+    match r with
+    | Write w =>
+        let '(s', a) := inner_step s (h_gid h) (Write w) in (s', cleared h, a)
+    | Read q =>
+        match probe h q with
+        | Some a => (s, h, a)
+        | None =>
+            let '(s', a) := inner_step s (h_gid h) (Read q) in (s', store_after_f22 h q a, a)
+        end
+    end.
+
+  (* one handle, sequential, pre-F22 *)
+  Fixpoint run1_f22 (s : istate) (h : handle) (rs : list req) : istate * handle * list answer :=
+    match rs with
+    | [] => (s, h, [])
+    | r :: rest => let '(s', h', a) := handle_step_f22 s h r in
+                   let '(s'', h'', l) := run1_f22 s' h' rest in (s'', h'', a :: l)
     end.
 
   (* ---------------------------------------------------------------- histories over several handles *)
